@@ -88,6 +88,8 @@ pub enum Ev {
     MineP(MineSel),
     /// Somebody else broadcasts a transaction.
     External(TxName),
+    /// The node drops a transaction from its mempool (expired, replaced, evicted).
+    Evict(TxName),
     /// The last `depth` blocks are replaced by `depth + 1` new ones (no poll).
     Reorg { depth: u8, how: Replacement },
     /// Reorg + Poll.
@@ -376,6 +378,10 @@ impl World {
             }
             Ev::External(n) => {
                 let _ = self.env.lock().submit(&build_tx(*n));
+                None
+            }
+            Ev::Evict(n) => {
+                self.env.lock().mempool.remove(&crate::sim::txid_of(*n));
                 None
             }
             Ev::Reorg { depth, how } => {
